@@ -154,7 +154,7 @@ def gen_command_script(rnd):
     for f in forms + ints + bvs:
         ns |= {n for (n, _) in all_symbols(f)}
     FNS = {n for f in forms + ints + bvs for (n, ty_) in all_symbols(f) if is_fun(ty_)}
-    m = names.hostile_mapping(rnd, ns, pct=35, functions=FNS)
+    m = names.hostile_mapping(rnd, ns, pct=35, functions=FNS, with_pow=any("POW" in B.ops_of(f) for f in forms + ints + bvs))
     forms = [names.rename(f, m) for f in forms]
     ints = [names.rename(f, m) for f in ints]
     bvs = [names.rename(f, m) for f in bvs]
@@ -473,7 +473,7 @@ def shard(shard, seed, n, part):
             t = g.term(BOOL if g.pct(70) else g.ty())
             ns = {x for (x, _) in all_symbols(t)}
             FNS = {x for (x, ty_) in all_symbols(t) if is_fun(ty_)}
-            m = names.hostile_mapping(rnd, ns, pct=50, allow_bar_backslash=True, functions=FNS)
+            m = names.hostile_mapping(rnd, ns, pct=50, allow_bar_backslash=True, functions=FNS, with_pow="POW" in B.ops_of(t))
             check_roundtrip(run, names.rename(t, m), g, g.cards())
         elif part == "script":
             text, tags = gen_command_script(rnd)
